@@ -389,10 +389,13 @@ func marshalSources(v []byte) []struct {
 	s := string(v)
 	bs := append([]byte{}, v...)
 	i64, _ := strconv.ParseInt(s, 10, 64)
+	// the secret followed by more digits: a numeral that does not fit into an int64 when the secret is digits
+	long := s + "99999999"
 	return []struct {
 		name string
 		val  interface{}
 	}{
+		{"string(longer)", long}, {"*string(longer)", &long},
 		{"string", s}, {"*string", &s}, {"[]byte", bs}, {"*[]byte", &bs}, {"int64", i64}, {"*int64", &i64}, {"int", int(i64)},
 		{"float64", 1.5}, {"struct", struct{ A string }{s}}, {"*struct", &struct{ A string }{s}}, {"[]string", []string{s}},
 		{"map", map[string]string{"v": s}}, {"field.String", field.NewStringValue(s)}, {"field.Hex", field.NewHexValue(s)},
